@@ -159,14 +159,17 @@ func caseGen() *rapid.Generator[Case] {
 // ErrKinds: every error value the failing writer can report.
 var ErrKinds = []string{"", "eof", "short", "closed", "epipe", "wrapped", "nocause", "deadline", "canceled", "list"}
 
-// TestCross: three fixed tables (headed with a separator and a multi-line cell; header narrower than the rows;
-// headerless) x every renderer x every error value x plain/rich writer, every fault point of each.
+// TestCross: four fixed tables (headed with a separator and a multi-line cell; header narrower than the rows;
+// headerless; skipable columns with empty cells) x every renderer x every error value x plain/rich writer, every fault point of each.
 func TestCross(t *testing.T) {
 	s := gen.S
 	tables := [][]gen.Op{
 		{{K: "hdr", Items: []gen.Item{s("k"), s("name"), s("n")}}, {K: "rowitems", Items: []gen.Item{s("a"), s("b\nc"), {K: "int", N: 1}}}, {K: "rowitems", Items: []gen.Item{{K: "sns", S: "3x4"}, {K: "sns", S: "text only"}, s("z")}}, {K: "sep"}, {K: "rowitems", Items: []gen.Item{s("\"q\""), s("<&>|")}}},
 		{{K: "hdr", Items: []gen.Item{s("id"), s("what")}}, {K: "rowitems", Items: []gen.Item{s("1"), s("x"), s("beyond the header")}}, {K: "rowitems"}},
 		{{K: "rowitems", Items: []gen.Item{s("no"), s("header")}}, {K: "appendnew"}, {K: "rowadd", Ref: -1, Items: []gen.Item{s("late")}}},
+		// columns that may be skipped when empty (column 1 by its own setting, column 3 by the default of column 0, column 2 never) and rows with empty cells at the front, in the middle, at the end
+		{{K: "hdr", Items: []gen.Item{s("a"), s("b"), s("c")}}, {K: "prop", P: &gen.PropOp{Col: 0, Key: "skip", Val: 1}}, {K: "prop", P: &gen.PropOp{Col: 1, Key: "skip", Val: 1}}, {K: "prop", P: &gen.PropOp{Col: 2, Key: "skip", Val: 2}},
+			{K: "rowitems", Items: []gen.Item{s("1"), s("2"), s("3")}}, {K: "rowitems", Items: []gen.Item{s(""), s("x"), s("y")}}, {K: "rowitems", Items: []gen.Item{s(""), s(""), s("z")}}, {K: "rowitems", Items: []gen.Item{s("p"), s(""), s("")}}, {K: "rowitems", Items: []gen.Item{s(""), s(""), s("")}}, {K: "rowitems", Items: []gen.Item{s("last")}}},
 	}
 	shard, shards := h.Shard()
 	i := 0
@@ -213,7 +216,7 @@ func TestCross(t *testing.T) {
 			t.Fatalf("VIOLATION %s (detail in the replay file)", ID)
 		}
 	}
-	ev.R().Sub(ev.SubRun{Name: "cross", Bound: "3 fixed tables x 8 renderers x 10 error values x {plain, rich writer}, every write index x 3 failure modes of each; plus one table of about 500 rows (tens of KiB of output) x 8 renderers x 2 error values x {plain, rich}, sampled write indices; plus one of about 1800 rows (past 64 KiB) x {csv, html, json, markdown}", Cases: faultPoints, Exhaustive: true})
+	ev.R().Sub(ev.SubRun{Name: "cross", Bound: "4 fixed tables x 8 renderers x 10 error values x {plain, rich writer}, every write index x 3 failure modes of each; plus one table of about 500 rows (tens of KiB of output) x 8 renderers x 2 error values x {plain, rich}, sampled write indices; plus one of about 1800 rows (past 64 KiB) x {csv, html, json, markdown}", Cases: faultPoints, Exhaustive: true})
 }
 
 func TestProp(t *testing.T) {
